@@ -45,15 +45,16 @@ type Classes struct {
 }
 
 type shaper struct {
-	e       *eng
-	nid     int
-	summary map[string][]seq // per definition: one merged sequence per length
-	wrapMem map[string]*elem
-	aborts  map[string]string
-	classes *Classes
-	nodeT   *types.Interface
-	nodeSp  *ssa.Package
-	runs    int
+	e        *eng
+	nid      int
+	summary  map[string][]seq // per definition: one merged sequence per length
+	wrapMem  map[string]*elem
+	aborts   map[string]string
+	literals map[string][]string // token kind -> leaf nodes its text is converted to
+	classes  *Classes
+	nodeT    *types.Interface
+	nodeSp   *ssa.Package
+	runs     int
 }
 
 func (s *shaper) newElem(tag string) *elem {
@@ -271,6 +272,13 @@ func (s *shaper) wrap(g *G) *elem {
 				s.aborts[fmt.Sprintf("parser.tokenWrapper.Wrap / token %s %s", c.kind, absint.Key(c.value))] = "wrapping a " + c.kind + " token can abort the parser: " + end.Error() + " [" + strings.Join(in.CondLog, "; ") + "]"
 			} else if ifc, ok := res.(*absint.Iface); ok {
 				el.add(ifc)
+				if g.Kind == "kind" {
+					tn := ""
+					if nt, ok := ifc.T.(*types.Named); ok {
+						tn = nt.Obj().Name()
+					}
+					s.literals[c.kind] = append(s.literals[c.kind], tn+"("+absint.Key(ifc.V)+")")
+				}
 			}
 			if !o.Next() {
 				break
@@ -289,7 +297,11 @@ func (s *shaper) stdHooks() func(in *absint.Interp, callee *ssa.Function, args [
 		switch name {
 		case "strconv.Atoi", "strconv.ParseFloat":
 			errT := callee.Signature.Results().At(1).Type()
-			val := absint.NewVar("num", callee.Signature.Results().At(0).Type())
+			var val absint.Val = absint.NewVar("num", callee.Signature.Results().At(0).Type())
+			if len(args) > 0 {
+				// which conversion of which text: the literal rule (G6) reads it
+				val = &absint.Sym{Op: name, Args: args, T: callee.Signature.Results().At(0).Type()}
+			}
 			if in.Oracle.Choose(2, name+" fails") == 0 {
 				return &absint.Tuple{E: []absint.Val{val, absint.Const{T: errT}}}, true
 			}
@@ -550,7 +562,7 @@ var sharedClasses *Classes
 func SharedClasses() *Classes { return sharedClasses }
 
 func (e *eng) shapes() {
-	s := &shaper{e: e, summary: map[string][]seq{}, wrapMem: map[string]*elem{}, aborts: map[string]string{},
+	s := &shaper{e: e, summary: map[string][]seq{}, wrapMem: map[string]*elem{}, aborts: map[string]string{}, literals: map[string][]string{},
 		classes: &Classes{Field: map[string]map[string]bool{}, Def: map[string]map[string]bool{}, Ops: map[string]map[string]bool{}}}
 	names := load.SortedKeys(e.defs)
 	rounds := 0
@@ -596,6 +608,29 @@ func (e *eng) shapes() {
 			pos = "parser/token_wrapper.go"
 		}
 		e.s.Bad("G4", k, pos, v)
+	}
+	// G6: a literal's text is converted by the exact conversion of its kind
+	wantLit := map[string][]string{
+		"IntLit":   {"Float(strconv.ParseFloat(text,64))", "Int(strconv.Atoi(text))"},
+		"FloatLit": {"Float(strconv.ParseFloat(text,64))"},
+	}
+	for _, k := range []string{"IntLit", "FloatLit"} {
+		var got []string
+		for _, l := range s.literals[k] {
+			// equivalent spellings of the exact decimal conversion
+			for _, alt := range []string{"conv:int(strconv.ParseInt(text,10,64))", "conv:int(strconv.ParseInt(text,10,0))", "strconv.ParseInt(text,10,64)", "strconv.ParseInt(text,10,0)"} {
+				l = strings.ReplaceAll(l, alt, "strconv.Atoi(text)")
+			}
+			got = append(got, l)
+		}
+		sort.Strings(got)
+		got = uniqStr(got)
+		key := "parser.tokenWrapper.Wrap / " + k + " text -> leaf"
+		if strings.Join(got, " | ") == strings.Join(wantLit[k], " | ") {
+			e.s.OK("G6", key, "parser/token_wrapper.go", strings.Join(got, " | "))
+		} else {
+			e.s.Bad("G6", key, "parser/token_wrapper.go", fmt.Sprintf("an integer literal is the exact integer its digits spell (strconv.Atoi; a float only when it does not fit), a float literal is strconv.ParseFloat(text, 64); any detour (an integer through a float loses digits above 2^53) changes the value a literal stands for. Expected %v, found %v", wantLit[k], got))
+		}
 	}
 	// per transformer obligations (floor)
 	seen := map[string]bool{}
@@ -658,3 +693,13 @@ func (e *eng) shapes() {
 }
 
 var _ = constant.MakeBool
+
+func uniqStr(s []string) []string {
+	var out []string
+	for i, x := range s {
+		if i == 0 || x != s[i-1] {
+			out = append(out, x)
+		}
+	}
+	return out
+}
